@@ -528,6 +528,10 @@ impl<'input> Tokenizer<'input> {
             // TODO: Unicode escape codes
             Some((end, b)) => {
                 let ch = self.chars.chars.as_str_suffix().restore_char(&[b]);
+                // Consume the remaining bytes of a multi-byte character as well
+                for _ in 1..ch.len_utf8() {
+                    self.bump();
+                }
                 self.recover(start, end, UnexpectedEscapeCode(ch), b)
                     .map(|s| s.value)
             }
@@ -627,25 +631,45 @@ impl<'input> Tokenizer<'input> {
 
     fn char_literal(&mut self, start: Location) -> Result<SpannedToken<'input>, SpError> {
         let ch = match self.bump() {
-            Some((start, b'\\')) => self.escape_code(start)?,
+            Some((start, b'\\')) => {
+                let escaped = self.escape_code(start)?;
+                if escaped < 0x80 {
+                    escaped as char
+                } else {
+                    // An invalid (already reported) escape of a multi-byte character
+                    char::REPLACEMENT_CHARACTER
+                }
+            }
             Some((end, b'\'')) => {
                 return self.recover(start, end, EmptyCharLiteral, Token::CharLiteral('\0'));
             }
-            Some((_, ch)) => ch,
+            // The character must be restored (and a multi-byte one consumed) before the closing
+            // quote is read
+            Some((_, ch)) if ch >= 0x80 => {
+                let full = self.chars.chars.as_str_suffix().restore_char(&[ch]);
+                for _ in 1..full.len_utf8() {
+                    self.bump();
+                }
+                full
+            }
+            Some((_, ch)) => ch as char,
             None => return self.eof_recover(Token::CharLiteral('\0')),
         };
 
         match self.bump() {
-            Some((_, b'\'')) => {
-                let ch = self.chars.chars.as_str_suffix().restore_char(&[ch]);
-                Ok(pos::spanned2(
-                    start,
-                    self.next_loc(),
-                    Token::CharLiteral(ch),
-                ))
-            }
-            Some((end, _)) => {
-                let ch = self.chars.chars.as_str_suffix().restore_char(&[ch]);
+            Some((_, b'\'')) => Ok(pos::spanned2(
+                start,
+                self.next_loc(),
+                Token::CharLiteral(ch),
+            )),
+            Some((end, next)) => {
+                // The byte read instead of the closing quote may start a multi-byte character
+                if next >= 0x80 {
+                    let next = self.chars.chars.as_str_suffix().restore_char(&[next]);
+                    for _ in 1..next.len_utf8() {
+                        self.bump();
+                    }
+                }
                 self.recover(start, end, UnterminatedCharLiteral, Token::CharLiteral(ch))
             } // UnexpectedEscapeCode?
             None => self.eof_recover(Token::CharLiteral('\0')),
@@ -836,6 +860,10 @@ impl<'input> Iterator for Tokenizer<'input> {
 
                 ch => {
                     let ch = self.chars.chars.as_str_suffix().restore_char(&[ch]);
+                    // Consume the remaining bytes of a multi-byte character as well
+                    for _ in 1..ch.len_utf8() {
+                        self.bump();
+                    }
                     let end = self.next_loc();
                     if let Err(err) = self.recover(start, end, UnexpectedChar(ch), ()) {
                         return Some(Err(err));
